@@ -141,27 +141,15 @@ theorem staged_eq_joinExact_resource_usage {cfg : Cfg K} {n : Nat}
   | false => exact (hs.1 hret).1
   | true => have := (hs.2 hret).1; rw [hd] at this; cases this
 
-/-- The objective columns of the returned rows. -/
-def objPart (cfg : Cfg K) (out : RoundOut) : List Vec :=
-  if out.retained then out.rows.map (List.take cfg.m) else out.rows
-
 /-- **`staged_objective_front`.** For every input, the objective part of what the staged join returns
-has exactly the front of the exact join (when `RESOURCE_USAGE` is not requested). In particular the
-best value of every objective, and every objective vector of the exact front, are returned — also in
-the defect case, where additional, objective-dominated rows are returned as well. -/
+(`objPart`: the rows themselves, or their first `m` columns when reservation columns were retained) has
+exactly the front of the exact join (when `RESOURCE_USAGE` is not requested). In particular the best
+value of every objective, and every objective vector of the exact front, are returned — also in the
+defect case, where additional, objective-dominated rows are returned as well. -/
 theorem staged_objective_front {cfg : Cfg K} {n : Nat} {tables : List (List (Cand K))}
     (h : StagedHyp cfg n tables) (caps : List Int) (hcaps : ∀ c ∈ caps, cfg.cap ≤ c) :
-    front (objPart cfg (staged cfg caps tables)) = joinExactV cfg tables := by
-  have hs := staged_spec h caps hcaps
-  unfold objPart
-  cases hret : (staged cfg caps tables).retained with
-  | false =>
-    simp only [Bool.false_eq_true, if_false]
-    rw [(hs.1 hret).1]
-    exact front_idem _
-  | true =>
-    simp only [if_true]
-    exact (hs.2 hret).2.1
+    front (objPart cfg (staged cfg caps tables)) = joinExactV cfg tables :=
+  staged_objPart_front h caps hcaps
 
 /-- **`staged_noGap`.** If no full combination has a reservation in a gap `(cap, capᵢ]`, columns are
 never retained and the staged join equals the exact join. -/
